@@ -61,7 +61,32 @@ class Dated:
     ds: List[_dt.date] = dataclasses.field(default_factory=list)
 
 
-SUBJECTS = [("Dated (strategy with postponed return annotation)", Dated, [Dated(_dt.date(2024, 2, 29)), Dated(_dt.date(1, 1, 1), _dt.date(9999, 12, 31), [_dt.date(2000, 1, 1)])]),
+import typing as _typing
+
+if _typing.TYPE_CHECKING:               # the name exists for type checkers only
+    from fractions import Fraction
+
+
+def as_fraction(value: _dt.date) -> Fraction:        # a postponed return annotation that cannot be resolved at run time
+    return value.toordinal()
+
+
+def as_local(value: _dt.date) -> NoSuchName:          # noqa: F821  (misspelt / local name)
+    return value.toordinal()
+
+
+@dataclasses.dataclass
+class Unresolvable:
+    """overridden serialization whose return annotation cannot be evaluated: the builder describes the field as Any (with a
+    warning), it never lets NameError escape"""
+    a: _dt.date = dataclasses.field(metadata={"serialize": as_fraction})
+    b: _dt.date = dataclasses.field(default=_dt.date(2020, 1, 1), metadata={"serialize": as_local})
+    c: List[_dt.date] = dataclasses.field(default_factory=list)
+
+
+SUBJECTS = [("Unresolvable return annotations", Unresolvable, [Unresolvable(_dt.date(2024, 2, 29))]),
+            ("Dict[str, Unresolvable]", _typing.Dict[str, Unresolvable], [{"k": Unresolvable(_dt.date(2024, 2, 29))}]),
+            ("Dated (strategy with postponed return annotation)", Dated, [Dated(_dt.date(2024, 2, 29)), Dated(_dt.date(1, 1, 1), _dt.date(9999, 12, 31), [_dt.date(2000, 1, 1)])]),
             ("List[Dated]", List[Dated], [[Dated(_dt.date(2024, 2, 29))]]),
             ("Pair", Pair, [Pair(Leaf(1), [Shade.DARK], 2)]),
             ("List[Pair]", List[Pair], [[Pair(Leaf(1, "t"), [], 0)]]),
